@@ -13,11 +13,13 @@ pub struct ValueOracle {
     feature: bool,
     backdated: u32,
     pub check_acc_exact: bool,
+    /// compare handle identities inside one result (off for C26)
+    pub check_identity: bool,
 }
 
 impl ValueOracle {
     pub fn new() -> Self {
-        ValueOracle { check_acc_exact: true, ..Default::default() }
+        ValueOracle { check_acc_exact: true, check_identity: true, ..Default::default() }
     }
 }
 
@@ -52,7 +54,7 @@ impl Oracle for ValueOracle {
                         }
                     }
                     (Ok(g), Ok(w)) => {
-                        if let Err(e) = got_matches(g, w) {
+                        if let Err(e) = got_matches_opts(g, w, self.check_identity) {
                             out.push(viol("value-mismatch", cx.idx, format!("get{key:?}: {e}")));
                         }
                     }
@@ -123,6 +125,11 @@ impl Oracle for ValueOracle {
                     out.push(viol("unexpected-panic", cx.idx, format!("{:?}: {}", cx.step, p.text())));
                 }
             }
+            StepRes::Snap { real } => {
+                if let Err(p) = real {
+                    out.push(viol("snapshot-roundtrip-failed", cx.idx, p.text()));
+                }
+            }
             StepRes::Other => {}
         }
         // count backdated executions: an execution whose value equals its previous one
@@ -169,5 +176,6 @@ pub fn spec_c01() -> PropSpec {
         nt_rule: "case has >=1 write followed by a Get whose log shows both DidValidateMemoizedValue and WillExecute, and the program contains If/NewEnt/Intern/Untracked",
         engine: "seq",
         runner: None,
+        decode: None,
     }
 }
